@@ -177,10 +177,12 @@ class Styled:
                  u: Optional[UStr] = None, v: Optional[Ver] = None,
                  cols: Optional[List[Color]] = None,
                  by: Optional[Dict[Ident, int]] = None,
-                 cb: Union[Color, bool, None] = None) -> None:
+                 cb: Union[Color, bool, None] = None,
+                 bu: Optional[Dict[UStr, int]] = None,
+                 bv: Optional[Dict[Ver, int]] = None) -> None:
         T(self, locals())
         self.col, self.name, self.u, self.v = col, name, u, v
-        self.cols, self.by, self.cb = cols, by, cb
+        self.cols, self.by, self.cb, self.bu, self.bv = cols, by, cb, bu, bv
 
 
 # ------------------------------------------------------- M8 hierarchy
@@ -510,3 +512,24 @@ class Outer4:
     def __init__(self, first: int, r: Req4, last: int) -> None:
         T(self, locals())
         self.first, self.r, self.last = first, r, last
+
+
+# --------------- C02: an index (map_attribute_to_index) with a string-like key
+class Staff:
+    def __init__(self, name: Ident, role: str, hours: int = 40) -> None:
+        T(self, locals())
+        self.name, self.role, self.hours = name, role, hours
+
+
+class Firm:
+    def __init__(self, employees: Dict[str, Staff]) -> None:
+        T(self, locals())
+        self.employees = employees
+
+    @classmethod
+    def _yatiml_recognize(cls, node: yatiml.UnknownNode) -> None:
+        node.require_attribute('employees')
+
+    @classmethod
+    def _yatiml_savorize(cls, node: yatiml.Node) -> None:
+        node.map_attribute_to_index('employees', 'name', 'role')
